@@ -338,7 +338,8 @@ def gen_ep_config_program(rng, name, overrides, migrate, reply, replies_feature)
     if reply == "table":
         gen_reply_table(rng, p)
     elif reply == "legacy":
-        p["parts"][0]["handlers"].append({"kind": "reply", "name": "reply", "safe": True, "hid": "c.reply.reply", "part": "c",
+        rn = rng.choice(["reply", "on_reply", "handle_reply"])
+        p["parts"][0]["handlers"].append({"kind": "reply", "name": rn, "safe": True, "hid": f"c.reply.{rn}", "part": "c",
                                           "legacy": True, "args": [], "ret_err": "own"})
     p["overrides"] = [{"kind": k, "fn": f"ov_{k}", "msg": ("Reply" if k == "reply" else "svmon::OvMsg")} for k in overrides]
     p["ep_config"] = {"overrides": list(overrides), "migrate": migrate, "reply": reply}
